@@ -706,6 +706,14 @@ class BuiltinMixin:
                 if not self.branch(ok):
                     raise PyRaise('UnicodeEncodeError')
                 return SV('bytes', s)
+            if name in ('ljust', 'rjust'):
+                # str.ljust / rjust(width[, fill]): pad to the width, NEVER truncate (a longer string is returned unchanged)
+                fill = args[1] if len(args) > 1 else VC(' ')
+                width = self.as_int(args[0])
+                padn = z3.If(width - z3.Length(s) > 0, width - z3.Length(s), z3.IntVal(0))
+                pad = self.seq_repeat(fill, VI(z3.simplify(padn)), node)
+                ps = self.as_seq(pad)
+                return VS(z3.Concat(s, ps) if name == 'ljust' else z3.Concat(ps, s))
             if name == 'startswith':
                 return VB(z3.PrefixOf(self.as_seq(args[0]), s))
             if name == 'endswith':
